@@ -37,6 +37,32 @@ def container_type(rng, depth):
     return {'k': 'dict', 'fields': [['f%d' % i, container_type(rng, depth - 1)] for i in range(n)], 'allowNone': rng.random() < 0.2}
 
 
+_LIB_IDS = None
+
+
+def library_identifiers():
+    """parameter names of the functions on the library's own call path from a decoded method call to the subscribers (read from the
+    current source with `ast`): legal argument names of a .def method that would collide with a careless `**kwargs` pass-through"""
+    global _LIB_IDS
+    if _LIB_IDS is None:
+        import ast
+        from .. import common
+        names = set()
+        for rel in ('core/entity.py', 'core/entity_def/entity_description.py', 'core/entity_def/base_definition.py',
+                    'core/network/player.py'):
+            try:
+                tree = ast.parse(open(os.path.join(common.REPO, 'replay_unpack', rel), encoding='utf-8').read())
+            except Exception:
+                continue
+            for node in ast.walk(tree):
+                if isinstance(node, (ast.FunctionDef, ast.Lambda)):
+                    a = node.args
+                    for x in a.posonlyargs + a.args + a.kwonlyargs + [y for y in (a.vararg, a.kwarg) if y]:
+                        names.add(x.arg)
+        _LIB_IDS = sorted(n for n in names if n.isidentifier() and not n.startswith('__'))
+    return _LIB_IDS
+
+
 def gen_defset(rng, n_entities=None, fault=None, simple_types=False, want_nested=False):
     ds = {'aliases': [], 'alias_ext': None, 'interfaces': [], 'entities': [], 'entities_form': rng.choice(['flat', 'cse']),
           'fault': fault}
@@ -51,6 +77,11 @@ def gen_defset(rng, n_entities=None, fault=None, simple_types=False, want_nested
         # duplicate tag in alias.xml: the last wins (position of the first)
         nm = rng.choice(ds['aliases'])[0]
         ds['aliases'].append((nm, ('tree', small_type(rng, allow_user=not simple_types))))
+    if rng.random() < 0.3:
+        # an alias that carries the name of a built-in type (legal: the alias table is consulted first). Only names the generator
+        # never writes inside a type tree, so that every mention of them is a reference to the alias
+        for nm in rng.sample(['FLOAT', 'UNICODE_STRING'], rng.randint(1, 2)):
+            ds['aliases'].append((nm, ('tree', small_type(rng, allow_user=not simple_types))))
     if rng.random() < 0.4:
         ds['alias_ext'] = []
         for _ in range(rng.randint(1, 2)):
@@ -79,6 +110,10 @@ def gen_defset(rng, n_entities=None, fault=None, simple_types=False, want_nested
         k = rng.choice([0, 0, 1, 1, 2, 3])
         named = rng.random() < 0.4
         args = [(('arg%d' % j) if named else None, type_ref()) for j in range(k)]
+        if named and k and rng.random() < 0.3 and library_identifiers():
+            # argument names that are also parameter names inside the library (self, entity, name, args, ...)
+            picked = rng.sample(library_identifiers(), min(k, len(library_identifiers())))
+            args = [(nm, t) for nm, (_, t) in zip(picked, args)]
         return {'name': rng.choice(meth_pool), 'args': args, 'named': named,
                 'header': rng.choice([None, None, '1', '2', '2', 'garbage', 'nested', ' 2 ']),
                 'exposed_tag': rng.random() < 0.5}
@@ -99,6 +134,9 @@ def gen_defset(rng, n_entities=None, fault=None, simple_types=False, want_nested
             sec['base'].append(gen_method())
         if rng.random() < 0.5:
             sec['volatile'] = rng.sample(['position', 'yaw', 'pitch', 'roll', 'other'], rng.randint(0, 5))
+        if rng.random() < 0.5:
+            # the order of the top-level sections of a .def file carries no meaning: write them in any order
+            sec['order'] = rng.sample(range(7), 7)
         return sec
 
     n_if = rng.randint(0, 5)
@@ -155,14 +193,17 @@ def default_xml(t_resolved, rng_token):
 
 
 def section_xml(sec, resolve, root_tag):
-    L = ['<%s>' % root_tag]
+    blocks = []
+    L = []
     if sec['implements']:
         L.append('<Implements>')
         for i in sec['implements']:
             L.append('  <Interface>\t%s </Interface>' % i)
         L.append('</Implements>')
+    blocks.append(L); L = []
     if sec.get('temp'):
         L.append('<TempProperties><_x/></TempProperties>')
+    blocks.append(L); L = []
     if sec['props'] or sec.get('force_props'):
         L.append('<Properties>')
         for n, p in enumerate(sec['props']):
@@ -175,9 +216,13 @@ def section_xml(sec, resolve, root_tag):
                     L.append('    <Default>%s</Default>' % d)
             L.append('  </%s>' % p['name'])
         L.append('</Properties>')
+    blocks.append(L); L = []
     if sec['volatile'] is not None:
         L.append('<Volatile>' + ''.join('<%s/>' % v for v in sec['volatile']) + '</Volatile>')
+    blocks.append(L); L = []
     for key, tag in (('client', 'ClientMethods'), ('cell', 'CellMethods'), ('base', 'BaseMethods')):
+        L = []
+        blocks.append(L)
         if sec[key]:
             L.append('<%s>' % tag)
             for m in sec[key]:
@@ -199,8 +244,12 @@ def section_xml(sec, resolve, root_tag):
                         L.append('    <VariableLengthHeaderSize>%s<WarnLevel>none</WarnLevel></VariableLengthHeaderSize>' % h)
                 L.append('  </%s>' % m['name'])
             L.append('</%s>' % tag)
-    L.append('</%s>' % root_tag)
-    return '\n'.join(L)
+    order = sec.get('order') or range(len(blocks))
+    out = ['<%s>' % root_tag]
+    for i in order:
+        out += blocks[i]
+    out.append('</%s>' % root_tag)
+    return '\n'.join(out)
 
 
 def alias_table(ds):
